@@ -154,6 +154,18 @@ def build():
     m = one(r"let\s+msg_len\s*=\s*u16::from_(be|le)_bytes\(self\.msg_size_buf\)\s+as\s+usize\s*;\s*let\s+mut\s+msg_buf\s*=\s*self\.buf\.create_sized\(msg_len\)\s*;",
             rv, "recv length prefix")
     defs.append(("frame_big_endian", "bool", "true" if m.group(1) == "be" else "false"))
+    # both parts of a frame are read to completion whatever the chunking: recv_n_bytes = read_exact in a retry loop
+    one(r"self\.status\s*=\s*Status::WaitingForMessageHeader\s*;\s*Self::recv_n_bytes\(&mut\s+self\.stream_rx,\s*&mut\s+self\.msg_size_buf\)\s*\.await\?\s*;\s*let\s+msg_len",
+        rv, "recv: the length prefix is read with recv_n_bytes")
+    one(r"self\.status\s*=\s*Status::WaitingForMessageBody\s*;\s*Self::recv_n_bytes\(&mut\s+self\.stream_rx,\s*&mut\s+msg_buf\)\.await\?\s*;", rv,
+        "recv: the body is read with recv_n_bytes")
+    rn = fn_body(cn, "recv_n_bytes")
+    one(r"^\s*loop\s*\{\s*match\s+stream_rx\.read_exact\(buf\.as_mut\(\)\)\.await\s*\{\s*Ok\(_size\)\s*=>\s*return\s+Ok\(\(\)\)\s*,\s*Err\(err\)\s*=>\s*match\s+Self::process_io_error\(err\)\s*\{\s*"
+        r"ControlFlow::Continue\(_\)\s*=>\s*continue\s*,\s*ControlFlow::Break\(err\)\s*=>\s*return\s+Err\(err\)\s*,?\s*\}\s*,?\s*\}\s*\}\s*$", rn,
+        "recv_n_bytes: read_exact, retried on recoverable errors")
+    if re.search(r"\.read\(|read_buf|try_read|poll_read", rv + rn):
+        raise GenError("DnsMessageReceiver reads with something other than read_exact")
+    defs.append(("frame_prefix_read_exact", "bool", "true"))
     prr = fn_body(cn, "process_read_request")
     one(r"match\s+Message::from_octets\(buf\)\s*\{\s*Err\(err\)\s*=>\s*\{.*?return\s+Err\(ConnectionEvent::DisconnectWithoutFlush\)\s*;", prr,
         "short message on a stream disconnects")
@@ -229,6 +241,41 @@ def build():
     one(r"Err\(err\)\s*=>\s*\{\s*self\.set_status\(InvokerStatus::Aborting\)\s*;\s*Some\(mk_error_response\(req_msg,\s*err\.rcode\(\)\.into\(\)\)\)", inv,
         "invoker: service error => mk_error_response, stream aborted")
     defs.append(("svc_error_bypasses_middleware", "bool", "true"))
+    # ---- cookies.rs: the two answers made without the request (malformed COOKIE, denied address without cookie)
+    ck = strip_comments(read("src/net/server/middleware/cookies.rs"))
+    cpre = fn_body(ck, "preprocess")
+    c_old = (len(re.findall(r"let\s+mut\s+builder\s*=\s*mk_builder_for_target\(\)\s*;\s*builder\.header_mut\(\)\.set_rcode\(Rcode::FORMERR\)\s*;\s*return\s+ControlFlow::Break\(builder\.additional\(\)\)", cpre)),
+             len(re.findall(r"let\s+builder\s*=\s*mk_builder_for_target\(\)\s*;\s*let\s+mut\s+additional\s*=\s*builder\.additional\(\)\s*;\s*additional\.header_mut\(\)\.set_rcode\(Rcode::REFUSED\)\s*;\s*"
+                            r"additional\.header_mut\(\)\.set_tc\(true\)\s*;\s*return\s+ControlFlow::Break\(additional\)", cpre)))
+    c_new = (len(re.findall(r"return\s+ControlFlow::Break\(mk_error_response\(\s*request\.message\(\),\s*OptRcode::FORMERR,?\s*\)\)", cpre)),
+             len(re.findall(r"let\s+mut\s+additional\s*=\s*mk_error_response\(\s*request\.message\(\),\s*OptRcode::REFUSED,?\s*\)\s*;\s*additional\.header_mut\(\)\.set_tc\(true\)\s*;\s*return\s+ControlFlow::Break\(additional\)", cpre)))
+    if c_old == (1, 1) and c_new == (0, 0):
+        defs.append(("cookie_reject_echoes_question", "bool", "false"))
+    elif c_old == (0, 0) and c_new == (1, 1):
+        defs.append(("cookie_reject_echoes_question", "bool", "true"))
+    else:
+        raise GenError("cookies preprocess: the FORMERR / REFUSED+TC answers are neither both built from an empty builder nor both from mk_error_response")
+    one(r"if\s+request\.transport_ctx\(\)\.is_udp\(\)\s*&&\s*self\.ip_deny_list\.contains\(&request\.client_addr\(\)\.ip\(\)\)\s*\{\s*debug!\(\s*\"Rejecting cookie-less", cpre,
+        "cookies: cookie-less UDP request from a denied address is refused")
+    one(r"Some\(Err\(err\)\)\s*=>\s*\{\s*debug!\(\"Received malformed DNS cookie", cpre, "cookies: malformed COOKIE option")
+    # ---- idle timeout and connection limit
+    m = one(r"pub\s+fn\s+idle_timeout_expired\(&self,\s*timeout:\s*Duration\)\s*->\s*bool\s*\{\s*self\.idle_timeout_deadline\(timeout\)\s*(<=|<)\s*Instant::now\(\)\s*\}", cn, "IdleTimer::idle_timeout_expired")
+    defs.append(("idle_expired_cmp_is_le", "bool", "true" if m.group(1) == "<=" else "false"))
+    one(r"pub\s+fn\s+idle_timeout_deadline\(&self,\s*timeout:\s*Duration\)\s*->\s*Instant\s*\{\s*self\.idle_timer_reset_at\s*\.checked_add\(timeout\)", cn, "IdleTimer::idle_timeout_deadline = reset_at + timeout")
+    one(r"fn\s+full_msg_received\(&mut\s+self\)\s*\{\s*self\.reset_idle_timer\(\)\s*\}", cn, "a full message resets the idle timer")
+    one(r"fn\s+response_queue_emptied\(&mut\s+self\)\s*\{\s*self\.reset_idle_timer\(\)\s*\}", cn, "an emptied response queue resets the idle timer")
+    if len(re.findall(r"reset_idle_timer\(\)", cn)) != 2 or len(re.findall(r"idle_timer\.full_msg_received\(\)", cn)) != 1 or len(re.findall(r"idle_timer\.response_queue_emptied\(\)", cn)) != 1:
+        raise GenError("the idle timer is reset at other places than full_msg_received / response_queue_emptied")
+    pit = fn_body(cn, "process_dns_idle_timeout")
+    one(r"if\s+self\.idle_timer\.idle_timeout_expired\(timeout\)\s*&&\s*!self\.in_transaction\.load\(Ordering::SeqCst\)\s*\{.*?Err\(ConnectionEvent::DisconnectWithoutFlush\)", pit, "idle timeout disconnects")
+    one(r"sleep_until\(self\.idle_timer\.idle_timeout_deadline\(self\.config\.load\(\)\.idle_timeout\)\)", cn, "the connection loop sleeps until the idle deadline")
+    st = strip_comments(read("src/net/server/stream.rs"))
+    acl = fn_body(st, "at_connection_limit")
+    m = one(r"num_conn\s*(>=|>)\s*config\.max_concurrent_connections\(\)", acl, "StreamServer::at_connection_limit")
+    defs.append(("conn_limit_cmp_is_ge", "bool", "true" if m.group(1) == ">=" else "false"))
+    one(r"Ok\(\(stream,\s*addr\)\)\s+if\s+!self\.at_connection_limit\(\)\s*=>\s*\{\s*self\.spawn_connection_handler\(stream,\s*addr\)\s*;\s*\}\s*Ok\(_\)\s*=>\s*\{\s*warn!", st,
+        "an accepted connection at the limit is dropped")
+    one(r"accept_res\s*=\s*self\.accept\(\),\s*if\s+self\.accepting_connections\(\)", st, "accept only while accepting_connections()")
     # full response queue: the same response is retried after yielding; no drop, no bounded wait
     enq = fn_body(cn, "do_enqueue_response")
     one(r"loop\s*\{\s*match\s+self\.result_q_tx\.try_send\(response\)\s*\{", enq, "do_enqueue_response: loop { match try_send(response)")
